@@ -445,8 +445,66 @@ func c06Built(c *vlib.Ctx) {
 	}
 }
 
+// builtBoundary builds a plain Ethernet/IP/transport stack whose payload size lies within 10 bytes of the largest size
+// the length fields can express: IPv4 total length 65535 (beyond it the writer has to refuse), IPv6 payload length
+// 65535 (beyond it the packet becomes a jumbogram, for UDP with length 0 in its own header).
+func builtBoundary(r *vlib.Rand) (ls []gopacket.SerializableLayer, payload []byte, want []string, desc string, refuseOK bool) {
+	eth := &layers.Ethernet{SrcMAC: rMAC(r), DstMAC: rMAC(r)}
+	ls, want = append(ls, eth), append(want, "Ethernet")
+	v6 := r.Bool()
+	d := r.Range(-10, 10)
+	var nl gopacket.NetworkLayer
+	var setProto func(layers.IPProtocol)
+	limit := 65535
+	if v6 {
+		ip := &layers.IPv6{Version: 6, TrafficClass: r.Byte(), FlowLabel: r.U32() & 0xfffff, HopLimit: r.Byte(), SrcIP: rIP6(r), DstIP: rIP6(r)}
+		eth.EthernetType = layers.EthernetTypeIPv6
+		ls, want, nl = append(ls, ip), append(want, "IPv6"), ip
+		setProto = func(p layers.IPProtocol) { ip.NextHeader = p }
+		desc = "boundary-v6"
+	} else {
+		ip := &layers.IPv4{Version: 4, TOS: r.Byte(), Id: r.U16(), TTL: r.Byte(), SrcIP: rIP4(r), DstIP: rIP4(r)}
+		eth.EthernetType = layers.EthernetTypeIPv4
+		ls, want, nl = append(ls, ip), append(want, "IPv4"), ip
+		setProto = func(p layers.IPProtocol) { ip.Protocol = p }
+		limit -= 20
+		refuseOK = d > 0
+		desc = "boundary-v4"
+	}
+	hdr := 0
+	l4 := ""
+	switch k := r.Intn(3); {
+	case k == 0:
+		u := &layers.UDP{SrcPort: layers.UDPPort(r.Range(20000, 28000)), DstPort: layers.UDPPort(r.Range(20000, 28000))}
+		u.SetNetworkLayerForChecksum(nl)
+		setProto(layers.IPProtocolUDP)
+		ls, l4, hdr = append(ls, u), "UDP", 8
+		desc += "-udp"
+	case k == 1 || v6:
+		t := &layers.TCP{SrcPort: layers.TCPPort(r.Range(20000, 28000)), DstPort: layers.TCPPort(r.Range(20000, 28000)), Seq: r.U32(), Ack: r.U32(), ACK: true, Window: r.U16()}
+		t.SetNetworkLayerForChecksum(nl)
+		setProto(layers.IPProtocolTCP)
+		ls, l4, hdr = append(ls, t), "TCP", 20
+		desc += "-tcp"
+	default:
+		setProto(layers.IPProtocolICMPv4)
+		ls, l4, hdr = append(ls, &layers.ICMPv4{TypeCode: layers.CreateICMPv4TypeCode(8, 0), Id: r.U16(), Seq: r.U16()}), "ICMPv4", 8
+		desc += "-icmp4"
+	}
+	size := limit - hdr + d
+	if v6 && d > 0 {
+		want = append(want, "IPv6HopByHop") // the jumbo payload option the IPv6 writer adds by itself
+	}
+	want = append(want, l4)
+	return ls, r.Bytes(size), want, desc, refuseOK
+}
+
 func c06BuiltOne(c *vlib.Ctx, seed uint64) {
 	ls, payload, want, desc := builtStack(vlib.NewRand(seed))
+	refuseOK := false
+	if seed%8 == 0 {
+		ls, payload, want, desc, refuseOK = builtBoundary(vlib.NewRand(seed))
+	}
 	key := strings.Join(want, "/")
 	if len(payload) > 0 {
 		want = append(want, "Payload")
@@ -466,6 +524,10 @@ func c06BuiltOne(c *vlib.Ctx, seed uint64) {
 		return
 	}
 	c.Evals(1)
+	if err != nil && refuseOK {
+		c.Count("built_over_limit_refused", 1) // a size the length field cannot express: refusing it is the right answer
+		return
+	}
 	if err != nil {
 		c.Violation("built:serialize-error:"+desc, fmt.Sprintf("a stack built from in-range values (%s, %d byte payload) cannot be written: %v", key, len(payload), err), det)
 		return
